@@ -3333,10 +3333,17 @@ class CppEmitter(Visitor):
         ``fpy::borrow`` interop helper), which cannot bind a ``const``
         reference.
         """
-        if param is None or self.unbox is None:
+        if param is None:
             return emitted
         want = param.ty
         have = self._storage_or_none(e)
+        if self.unbox is None:
+            # Every list is a handle, so there is no representation to adapt --
+            # but a callee specialised at another element type is still a
+            # different `std::vector` instantiation, which nothing converts.
+            if isinstance(have, CppList | CppTuple) or isinstance(want, CppList | CppTuple):
+                self._require_bridgeable(have, want, e)
+            return emitted
         if not (isinstance(have, CppList) and isinstance(want, CppList)):
             self._require_bridgeable(have, want, e)
             return emitted
